@@ -665,6 +665,7 @@ class HSM2Dongle:
             self.logger.error("Sign returned: %s", hex(e.error_code))
             if e.error_code in [
                 self.ERR.SIGN.DATA_SIZE,
+                self.ERR.SIGN.INVALID_PATH,
                 self.ERR.SIGN.DATA_SIZE_AUTH,
                 self.ERR.SIGN.DATA_SIZE_NOAUTH,
             ]:
